@@ -99,6 +99,8 @@ static table_t* tbl_generate(vrng_t* r, const tgen_t* gp) {
         col->max_def = (int16_t)(col->rep == CARQUET_REPETITION_OPTIONAL ? 1 : 0); col->max_rep = 0;
         static const char* odd[] = {"", "a b", "col.with.dots", "\xc3\xa9t\xc3\xa9", "x"};
         if (vrng_chance(r, 1, 12)) snprintf(col->name, sizeof col->name, "%s_%d", odd[vrng_below(r, 5)], c); else snprintf(col->name, sizeof col->name, "c%d", c); }
+    if (t->ncols >= 2 && vrng_chance(r, 1, 8)) { /* an earlier column whose name extends a later column's name (value_raw before value): lookups by name must not stop at a prefix */
+        int j = 1 + (int)vrng_below(r, (uint64_t)t->ncols - 1), i = (int)vrng_below(r, (uint64_t)j); char tmp[sizeof t->cols[0].name]; snprintf(tmp, sizeof tmp, "%.*s_raw", (int)sizeof tmp - 8, t->cols[j].name); memcpy(t->cols[i].name, tmp, sizeof tmp); }
     t->nrg = gp->force_nrg > 0 ? gp->force_nrg : (vrng_chance(r, 2, 3) ? 1 : 2 + (int)vrng_below(r, 3));
     t->rg = (tchunk_t**)calloc((size_t)t->nrg, sizeof(tchunk_t*)); t->rg_rows = (int64_t*)calloc((size_t)t->nrg, 8);
     t->codec = gp->force_codec >= 0 ? gp->force_codec : T_CODECS[vrng_below(r, 5)];
